@@ -1,4 +1,4 @@
-CONSTANTS SegMax = 3  NodeId = 1  Walk = FALSE  WalkLen = 0  ProbeKind = "short"  PumpN = 0  ProbeReset = FALSE
+CONSTANTS SegMax = 3  NodeId = 1  Walk = FALSE  WalkLen = 0  ProbeKind = "short"  PumpN = 0  ProbeReset = FALSE  ProbeB = FALSE
 CONSTANT Dict <- MCDict  Mux <- MCMux  Letters <- LettersQuick
 INIT Init
 NEXT Next
